@@ -1,6 +1,7 @@
 CONSTANT Threads = {1, 2}
 CONSTANT MaxCalls = 1
 CONSTANT AsCodedReinit = FALSE
+CONSTANT AllowEdits = FALSE
 CONSTANT CastInPlace = FALSE
 SPECIFICATION Spec
 INVARIANT Immutable
